@@ -9,6 +9,8 @@ partial_fit batching, for 2..4 levels, every elementary class as level model, an
   * map_deep(level, column level+1) == column 0, for vectors, negative levels and scalar ints,
   * predict returns n_layers+1 vectors linked by the layer maps, nested, labels seen in training,
   * fit == partial_fit batching (labels_deep_, maps, weights).
+The same oracle runs with class targets that are large identifiers (identifier_labels) and with targets handed over as an
+(n, 1) column vector through >= 2 partial_fit batches of one common size (column_targets: DeepARTMAP and SimpleARTMAP).
 Tie: Lean `deep` histories end-to-end over Q (Fuzzy / ART1 / ART2-A levels, grid data): columns,
 every layer's map, category counts, B-side labels and per-level predictions must agree exactly."""
 from __future__ import annotations
@@ -133,6 +135,8 @@ def do_fit(est, case, a, b, op):
         if y is not None and case.get("ydtype"):
             y = y.astype({"bool": bool, "int8": np.int8, "uint8": np.uint8, "float64": np.float64,
                           "int32": np.int32, "uint32": np.uint32, "int64": np.int64}[case["ydtype"]])
+        if y is not None and case.get("ycol"):
+            y = y.reshape(-1, 1)      # an (n, 1) column of targets (df[["label"]].values): check_X_y accepts it
         return est.fit(Xs, y, **kw) if op == "fit" else est.partial_fit(Xs, y, **kw)
 
 
@@ -143,9 +147,17 @@ def do_predict(est, case, Q, as_list=True):
         return est.predict([Q] * case["k"] if as_list else Q)
 
 
+def as_int(v):
+    """a label as an int; a label stored from an (n, 1) column of targets is a one-element row"""
+    a = np.asarray(v)
+    if a.size != 1:
+        raise TypeError(f"not a single label: {v!r}")
+    return int(a.reshape(-1)[0])
+
+
 def snapshot(est):
     return {"cols": np.asarray(est.labels_deep_).copy(),
-            "maps": [{int(p): int(q) for p, q in L.map.items()} for L in est.layers],
+            "maps": [{int(p): as_int(q) for p, q in L.map.items()} for L in est.layers],
             "W": [[np.array(w, dtype=float).copy() for w in m.W] for m in est.modules]}
 
 
@@ -194,8 +206,15 @@ def oracle(ctx, est, case, total, tag, rep):
         bad("labels_deep_:shape", f"{nl} layers (expected {want_layers}), labels_deep_ shape {L.shape}, {total} samples")
         return False
     # --- each column equals that layer's own labels
+    ycol = bool(case.get("ycol"))
+
+    def own(v):
+        # targets supplied as an (n, 1) column are stored in that shape: same labels, one per row
+        a = np.asarray(v)
+        return a.reshape(-1) if ycol and a.shape == (total, 1) else a
+
     for l in range(nl):
-        if not np.array_equal(L[:, l], np.asarray(est.layers[l].labels_)):
+        if not np.array_equal(L[:, l], own(est.layers[l].labels_)):
             bad("column!=layer.labels_", f"column {l} {L[:, l].tolist()} layer labels_ {list(est.layers[l].labels_)}")
         if not np.array_equal(L[:, l + 1], np.asarray(est.layers[l].labels_a)):
             bad("column!=layer.labels_a", f"column {l + 1} {L[:, l + 1].tolist()} vs labels_a of layer {l} "
@@ -242,11 +261,11 @@ def oracle(ctx, est, case, total, tag, rep):
             for lev in (l, l - nl):
                 try:
                     g = est.map_deep(lev, int(c))
-                    gi = int(g)
+                    gi = as_int(g) if ycol else int(g)
                 except Exception as e:
                     bad(f"map_deep(int):{exc_enum(e)}", f"map_deep({lev}, {c}) raised {e!r}")
                     continue
-                if np.ndim(g) != 0 or gi != t:
+                if (np.ndim(g) != 0 and not ycol) or gi != t:
                     bad("map_deep(int)!=top-label", f"map_deep({lev}, {c}) = {g!r}, samples with that label have top label {t}")
         cov.hit("map_deep-level-checked")
     return ok
@@ -254,6 +273,8 @@ def oracle(ctx, est, case, total, tag, rep):
 
 def oracle_predict(ctx, est, case, Q, L, tag, rep):
     kind = case["kind"]
+    # targets given as a column: the signature names the situation and whether layer 0 is also the finest layer
+    sfx = f":column-targets:modules={'1' if case['k'] == 1 else '2+'}" if case.get("ycol") else f"({case['cls']})"
     name = {"sup": "DeepARTMAP-sup", "unsup": "DeepARTMAP-unsup", "smart": "SMART"}[kind]
     nl = len(est.layers)
 
@@ -265,7 +286,7 @@ def oracle_predict(ctx, est, case, Q, L, tag, rep):
         P = [np.asarray(p) for p in P]
         P2 = P if kind == "smart" else [np.asarray(p) for p in do_predict(est, case, Q, as_list=False)]
     except Exception as e:
-        bad(f"predict({case['cls']}):{exc_enum(e)}", f"predict raised {e!r}")
+        bad(f"predict{sfx}:{exc_enum(e)}", f"predict raised {e!r}")
         return None
     if len(P) != nl + 1 or any(p.shape != (len(Q),) for p in P):
         bad("predict:shape", f"{len(P)} vectors of shapes {[p.shape for p in P]} for {nl} layers, {len(Q)} queries")
@@ -522,6 +543,214 @@ def identifier_labels(ctx, M, nmax):
             cov.hit("identifier-labels:relative-gap<=1e-5")
 
 
+# ------------------------------------------------------------------ class targets handed over as an (n, 1) column
+
+def equal_batches(r, n):
+    """(n', parts): at least two batches of ONE common size covering the first n' <= n rows"""
+    b = r.randint(1, max(1, n // 2))
+    m = n // b
+    if m > 2 and r.random() < 0.5:
+        m = r.randint(2, m)
+    return b * m, [b] * m
+
+
+def oracle_simple(ctx, est, case, total, tag, rep):
+    """C12 on the two-level hierarchy a stand-alone SimpleARTMAP is (targets above the categories of module_a):
+    stored labels = what was supplied, one per sample at both levels, nested, counts grow, map_a2b navigates upwards"""
+    ok = True
+
+    def bad(sig, what):
+        nonlocal ok
+        ok = False
+        ctx.issue("violation", f"SimpleARTMAP:{sig}", f"[{tag}] {what}", rep)
+
+    y = np.asarray(case["y"][:total])
+    try:
+        B, A = np.asarray(est.labels_), np.asarray(est.labels_a)
+    except Exception as e:
+        bad(f"labels_:{exc_enum(e)}", f"labels_ / labels_a raised {e!r}")
+        return False
+    # one stored target per sample: a 1-d vector, or (for targets handed over as an (n,1) column) one row per sample
+    want_b = [(total,), (total, 1)] if case.get("ycol") else [(total,)]
+    if B.shape not in want_b or A.shape != (total,):
+        bad("labels_:shape", f"labels_ shape {B.shape} (expected one of {want_b}), labels_a shape {A.shape}, {total} samples presented")
+        return False
+    B = B.reshape(-1)
+    if not np.array_equal(B, y):
+        bad("labels_!=y", f"{B.tolist()} vs {y.tolist()}")
+    if not np.array_equal(A, np.asarray(est.module_a.labels_)):
+        bad("labels_a!=module.labels_", f"{A.tolist()} vs {list(est.module_a.labels_)}")
+    p = nested_pairs(A, B)
+    if p is not None:
+        i, j = p
+        bad("not-nested", f"samples {i},{j} share category {int(A[i])} but have targets {int(B[i])} != {int(B[j])}")
+    ctx.cov.hit("nested-pairs-checked", total * total)
+    ca, cb = len(set(A.tolist())), len(set(B.tolist()))
+    if cb > ca:
+        bad("counts-decrease", f"{cb} distinct targets, {ca} distinct categories")
+    if int(est.n_clusters) != ca:
+        bad("n_clusters!=distinct-labels", f"n_clusters {int(est.n_clusters)}, distinct labels_a {ca}")
+    try:
+        up = np.asarray(est.map_a2b(A))
+        if up.shape != (total,) or not np.array_equal(up, B):
+            bad("map_a2b!=labels_", f"map_a2b(labels_a) = {up.tolist()} stored targets {B.tolist()}")
+    except Exception as e:
+        bad(f"map_a2b:{exc_enum(e)}", f"map_a2b(labels_a) raised {e!r}")
+    top_of = {}
+    for c, t in zip(A.tolist(), B.tolist()):
+        top_of.setdefault(c, t)
+    for c, t in top_of.items():
+        try:
+            g = as_int(est.map_a2b(int(c)))
+        except Exception as e:
+            bad(f"map_a2b(int):{exc_enum(e)}", f"map_a2b({c}) raised {e!r}")
+            continue
+        if g != t:
+            bad("map_a2b(int)!=top-label", f"map_a2b({c}) = {g}, samples of that category have target {t}")
+    ctx.cov.hit("map_deep-level-checked")
+    return ok
+
+
+def oracle_simple_predict(ctx, est, case, Q, tag, rep):
+    def bad(sig, what):
+        ctx.issue("violation", f"SimpleARTMAP:{sig}", f"[{tag}] {what}", rep)
+
+    sfx = ":column-targets" if case.get("ycol") else f"({case['cls']})"
+    try:
+        with quiet():
+            pb = np.asarray(est.predict(Q))
+            pa, pb2 = (np.asarray(v) for v in est.predict_ab(Q))
+    except Exception as e:
+        bad(f"predict{sfx}:{exc_enum(e)}", f"predict / predict_ab raised {e!r}")
+        return
+    if any(v.shape != (len(Q),) for v in (pa, pb, pb2)):
+        bad("predict:shape", f"shapes {pb.shape}, {pa.shape}, {pb2.shape} for {len(Q)} queries")
+        return
+    if not np.array_equal(pb, pb2):
+        bad("predict!=predict_ab", f"{pb.tolist()} vs {pb2.tolist()}")
+    try:
+        up = np.asarray(est.map_a2b(pa))
+        if not np.array_equal(up, pb):
+            bad("predict:levels-not-linked", f"targets {pb.tolist()} != map(categories {pa.tolist()}) = {up.tolist()}")
+    except Exception as e:
+        bad(f"predict:map_a2b:{exc_enum(e)}", f"predicted categories {pa.tolist()} not in the map: {e!r}")
+    if nested_pairs(pa, pb) is not None:
+        bad("predict:not-nested", f"queries {nested_pairs(pa, pb)} share a category but not a target")
+    A, B = np.asarray(est.labels_a), np.asarray(est.labels_).reshape(-1)
+    if not set(pa.tolist()) <= set(A.tolist()) or not set(pb.tolist()) <= set(B.tolist()):
+        bad("predict:label-never-seen", f"predicted {sorted(set(pa.tolist()))} / {sorted(set(pb.tolist()))}")
+    ctx.cov.hit("predict-checked")
+
+
+def column_targets(ctx, M, nmax):
+    """supervised training whose class targets arrive as an (n, 1) column vector (y.reshape(-1, 1), df[["label"]].values;
+    check_X_y accepts it with a DataConversionWarning and so does the library): DeepARTMAP (1..3 modules) and a
+    stand-alone SimpleARTMAP, fit and >= 2 partial_fit batches -- of one common size, or of any sizes -- with the whole
+    oracle after fit and after every batch, fit == batching, predict"""
+    cov = ctx.cov
+    for j in range(M):
+        r = gen.rng_for(ctx.seed, "C12-ycol", j)
+        case = gen_case(r, 3 * j, max(nmax, 6), floats=j % 4 == 3)     # 3j: supervised; classes and modes cycle with j
+        simple = j % 3 == 2
+        n = case["n"]
+        if len(set(case["y"].tolist())) < 2:
+            case["y"] = gen.labels(r, n, r.randint(2, 4))               # two targets for the veto to keep apart
+            if case["ydtype"] == "bool":
+                case["y"] = case["y"] % 2
+        equal = r.random() < 0.65
+        if equal:
+            n, parts = equal_batches(r, n)
+            case["n"], case["Xs"], case["y"] = n, [X[:n] for X in case["Xs"]], case["y"][:n]
+        else:
+            parts = gen.compositions(r, n)
+            if len(parts) == 1:
+                c = r.randint(1, n - 1)
+                parts = [c, n - c]
+        case["ycol"] = True
+        cls = case["cls"]
+        if simple:
+            case = dict(case, k=1, classes=case["classes"][:1], ds=case["ds"][:1], Xs=case["Xs"][:1], mods=case["mods"][:1],
+                        spec={"cls": "SimpleARTMAP", "module_a": case["mods"][0]})
+            cls = case["cls"] = case["classes"][0]
+        name = "SimpleARTMAP" if simple else "DeepARTMAP-sup"
+        rep = {"kind": "sup", "spec": case["spec"], "Xs": [X.tolist() for X in case["Xs"]], "y": case["y"].tolist(),
+               "y_dtype": case["ydtype"], "y_shape": [n, 1], "mode": case["mode"], "eps": case["eps"], "parts": parts}
+        key = ("ycol", case["spec"], rep["Xs"], rep["y"], case["ydtype"], case["mode"], case["eps"], parts)
+
+        def fit_(est, a, b, op):
+            if not simple:
+                return do_fit(est, case, a, b, op)
+            kw = dict(match_tracking=case["mode"], epsilon=case["eps"])
+            y = case["y"][a:b]
+            if case["ydtype"]:
+                y = y.astype(case["ydtype"])
+            with quiet():
+                return (est.fit if op == "fit" else est.partial_fit)(case["Xs"][0][a:b], y.reshape(-1, 1), **kw)
+
+        def check(est, total, tag):
+            return oracle_simple(ctx, est, case, total, tag, rep) if simple else oracle(ctx, est, case, total, tag, rep)
+
+        try:
+            e_fit, e_pf = build(case), build(case)
+            fit_(e_fit, 0, n, "fit")
+        except Exception as e:
+            ctx.issue("violation", f"{name}.fit:{exc_enum(e)}:column-targets",
+                      f"fit raised {e!r} on valid data (targets as an ({n}, 1) column, {cls}, mode {case['mode']})", rep)
+            cov.case(key, False)
+            continue
+        check(e_fit, n, "fit, (n,1) targets")
+        jj, pf_ok = 0, True
+        for p in parts:
+            try:
+                fit_(e_pf, jj, jj + p, "pfit")
+            except Exception as e:
+                ctx.issue("violation", f"{name}.partial_fit:{exc_enum(e)}:column-targets",
+                          f"partial_fit rows {jj}:{jj + p} of batching {parts} raised {e!r} on valid data (targets as a "
+                          f"({p}, 1) column, {cls}, mode {case['mode']})", rep)
+                pf_ok = False
+                break
+            jj += p
+            check(e_pf, jj, f"partial_fit {parts} after {jj}, (n,1) targets")
+        if pf_ok:
+            if simple:
+                same = (np.array_equal(np.asarray(e_fit.labels_a), np.asarray(e_pf.labels_a))
+                        and {int(a): as_int(b) for a, b in e_fit.map.items()} == {int(a): as_int(b) for a, b in e_pf.map.items()}
+                        and same_snapshot({"cols": np.zeros(0), "maps": [], "W": [[np.array(w, dtype=float) for w in e_fit.module_a.W]]},
+                                          {"cols": np.zeros(0), "maps": [], "W": [[np.array(w, dtype=float) for w in e_pf.module_a.W]]}))
+                what = f"labels_a fit {list(e_fit.labels_a)} partial_fit {list(e_pf.labels_a)}"
+            else:
+                sa, sb = snapshot(e_fit), snapshot(e_pf)
+                same = same_snapshot(sa, sb)
+                what = (f"labels_deep_ fit {sa['cols'].T.tolist()} partial_fit {sb['cols'].T.tolist()}; "
+                        f"maps {sa['maps']} vs {sb['maps']}")
+            if not same:
+                ctx.issue("violation", f"{name}:fit!=partial_fit-batching", f"(n,1) targets, batching {parts}: {what}", rep)
+            cov.hit("fit-vs-batching-compared")
+        Xl = case["Xs"][-1]
+        Q = np.vstack([Xl[[r.randrange(n) for _ in range(min(n, 4))]],
+                       specs.elem_data(r, case["classes"][-1], 3, case["ds"][-1])])
+        for est, tg in ((e_fit, "fit"),) + (((e_pf, f"partial_fit {parts}"),) if pf_ok else ()):
+            if simple:
+                oracle_simple_predict(ctx, est, case, Q, f"{tg}, (n,1) targets", dict(rep, Q=Q.tolist()))
+            else:
+                try:
+                    L = np.asarray(est.labels_deep_)
+                except Exception:
+                    continue                                          # reported by the oracle above
+                if L.shape == (n, len(est.layers) + 1):
+                    oracle_predict(ctx, est, case, Q, L, f"{tg}, (n,1) targets", dict(rep, Q=Q.tolist()))
+        cov.case(key, nontrivial=len(set(rep["y"])) >= 2 and len(parts) >= 2)
+        cov.hit("column-targets")
+        cov.hit(f"column-targets:{'SimpleARTMAP' if simple else 'DeepARTMAP'}")
+        cov.hit(f"column-targets:{'equal-batches' if len(set(parts)) == 1 else 'unequal-batches'}")
+        cov.hit(f"column-targets:batches={min(len(parts), 4)}{'+' if len(parts) >= 4 else ''}")
+        if len(set(parts)) == 1 and parts[0] >= 2:
+            cov.hit("column-targets:equal-batches-of>=2-rows")
+        cov.hit(f"column-targets:modules={case['k']}")
+        cov.hit(f"column-targets:class={cls}")
+        cov.hit(f"column-targets:mode={case['mode']}")
+
+
 # ------------------------------------------------------------------ main loop
 
 
@@ -632,6 +861,7 @@ def run(ctx):
                         "maps": [{int(p): int(q) for p, q in Ly.map.items()} for Ly in e_fit.layers],
                         "predict": None if P is None else [p.tolist() for p in P], "oracle_ok": ok})
     identifier_labels(ctx, ctx.scale(120, 1600), nmax)
+    column_targets(ctx, ctx.scale(144, 1800), nmax)
     correspondence(ctx, ctx.scale(480, 6000), ctx.scale(12, 30))
     ctx.trusted.append("C12: rounding inside the level kernels is outside the theorems (the nesting argument is order-only "
                        "and kernel-independent; the tie runs exact kernels on grid data)")
